@@ -99,6 +99,8 @@ def handle : Handler
       else none
   | "mpq_set_f", [.num n0, .num d0, .num sg, .vec l, .num e] =>
       some (outQ (set_f 1 (sg < 0) (val l) e (heap1 n0 d0) 1))
+  | "mpq_get_num", [.num n, .num d, .num _] => some ([.num (get_num 1 (heap1 n d))] ++ outQ ⟨n, d⟩)
+  | "mpq_get_den", [.num n, .num d, .num _] => some ([.num (get_den 1 (heap1 n d))] ++ outQ ⟨n, d⟩)
   | "mpq_get_d", [.num n, .num d] => some [natTok (get_d 1 (heap1 n d))]
   | _, _ => none
 
